@@ -36,3 +36,4 @@ func verifGuardPtr(mu interface{}, p interface{})
 func verifNoteU(msg string, v uint64)
 func verifLoad32(b []byte, off int) uint32
 func verifByteAt(b []byte, off int) uint8
+func verifChanStat(ch interface{}, what string) int
